@@ -280,6 +280,10 @@ def cer_drop(T, v, flag=False):
         out = {}
         for c in T['comps']:
             if c['name'] in v:
+                if c['p'] == 'def' and ir.same(c['t'], v[c['name']], c['d']):
+                    # (recognised as the DEFAULT - by complete encodings - and left out: the reader restores it whole)
+                    out[c['name']] = v[c['name']]
+                    continue
                 x = cer_drop(c['t'], v[c['name']], c['p'] == 'opt')
                 if x is not MISSING:
                     out[c['name']] = x
